@@ -196,8 +196,10 @@ class SpawnProcess(multiprocessing.context.SpawnProcess):
             result = self._result_and_error_.recv()
             error = self._result_and_error_.recv()
 
-        except EOFError as exc:
-            # the process has been terminated by calling ``self.terminate()``
+        except (EOFError, OSError) as exc:
+            # The process ended without sending its result, e.g. it has been terminated by calling
+            # ``self.terminate()`` or killed (``OSError`` if that happened in the middle of a message).
+            result, error = None, None
             while self.exitcode is None:
                 time.sleep(0.001)
 
@@ -216,7 +218,12 @@ class SpawnProcess(multiprocessing.context.SpawnProcess):
                 msg = os.strerror(exitcode)
                 if exitcode == 9:
                     msg += ': possibly out of memory'
-                raise OSError(exitcode, msg) from exc
+                err = OSError(exitcode, msg)
+                err.__cause__ = exc
+                # Resolve the future, otherwise `wait` and `as_completed` would
+                # never see this process as finished.
+                self._future_.set_exception(err)
+                raise err
 
         self._logger_queue_.put(None)
         self._result_and_error_.close()
